@@ -103,6 +103,26 @@ func genC12Round4(r *Rand, tier string) []Case {
 			c.Key = name + "|" + fmt.Sprint(round)
 			out = append(out, c)
 		}
+		// a hash join on TWO column pairs, repeated: the same rows on every run (the key text is built in one fixed
+		// column order for every row of both sides)
+		{
+			jdoc := map[string]any{"l": genJoinTable(r, 5, []string{"k", "z"}, "ls", false), "r": genJoinTable(r, 5, []string{"m", "b"}, "rs", false)}
+			for _, row := range jdoc["l"].([]any) {
+				m := row.(map[string]any)
+				jdoc["r"] = append(jdoc["r"].([]any), map[string]any{"rid": 90.0 + m["rid"].(float64), "m": m["k"], "b": m["z"], "rs": m["ls"], "o": m["o"]})
+			}
+			on := And(Cmp("=", Col("x", "k"), Col("y", "m")), Cmp("=", Col("y", "rs"), Col("x", "ls")))
+			for _, st := range []string{"auto", "hash"} { // (PARALLEL variants may legitimately return the rows in another order)
+				jq := &Stmt{From: &From{K: "join", JT: Pick(r, []string{"inner", "left", "right"}), Strat: st,
+					L: &From{K: "table", Path: []string{"l"}, Alias: "x"}, R: &From{K: "table", Path: []string{"r"}, Alias: "y"}, On: on}, Items: []Item{{Star: true}}}
+				c := mkCase(jdoc, jq, []string{"form:join", "pos:two-column-hash-join-repeated"}, true)
+				in := c.Input.(engIn)
+				in.Repeat = 8
+				c.Input = in
+				c.Key = "join2|" + st + "|" + fmt.Sprint(round)
+				out = append(out, c)
+			}
+		}
 		// D77: an ASYNC call whose argument is an effect-only call that did not fire resolves to the omit marker
 		for name, arg := range map[string]*Expr{
 			"async-of-raise-when-quiet": {K: "call", Name: "RAISE_WHEN", Items: []*Expr{Cmp("=", Col("id"), Num(99)), Str("boom")}},
